@@ -298,6 +298,41 @@ spec fn shadowed_by_other(am: Seq<Mapping>, i: int, k: KeyCode) -> bool {
   exists|j: int| 0 <= j < am.len() && j != i && #[trigger] am[j].from@.contains(k)
 }
 
+// ---- which keys a step may lift, and which it must have lifted (C05 in-effect clauses, C04) ----
+pub open spec fn has_mod(keys: Seq<KeyCode>) -> bool { exists|j: int| 0 <= j < keys.len() && is_mod(#[trigger] keys[j]) }
+/// a key-producing mapping: its output ends in a non-modifier key
+pub open spec fn act_map_v(to: Seq<KeyCode>) -> bool { to.len() > 0 && !is_mod(to.last()) }
+spec fn act_map(m: Mapping) -> bool { act_map_v(m.to@) }
+/// the outputs that release_action_mappings lifts: x is an output key of a key-producing mapping in effect that carries modifiers
+spec fn ram_target(am: Seq<Mapping>, x: KeyCode) -> bool { exists|j: int| 0 <= j < am.len() && act_map(#[trigger] am[j]) && am[j].to@.len() > 1 && has_mod(am[j].to@) && am[j].to@.contains(x) }
+spec fn is_ram_src(m: Mapping) -> bool { act_map(m) && m.to@.len() > 1 && has_mod(m.to@) }
+spec fn ktr_sound(ktr: Seq<KeyCode>, am: Seq<Mapping>) -> bool { forall|x: KeyCode| #[trigger] ktr.contains(x) ==> ram_target(am, x) }
+spec fn ktr_complete(ktr: Seq<KeyCode>, am: Seq<Mapping>, n: int, mo: Seq<KeyCode>) -> bool {
+  forall|j: int, x: KeyCode| #![trigger am[j].to@.contains(x)] 0 <= j < n && j < am.len() && is_ram_src(am[j]) && am[j].to@.contains(x) && mo.contains(x) ==> ktr.contains(x)
+}
+spec fn ktr_cur(ktr: Seq<KeyCode>, to: Seq<KeyCode>, n: int, mo: Seq<KeyCode>) -> bool {
+  forall|p: int| to.len() - n <= p < to.len() && 0 <= p ==> (mo.contains(#[trigger] to[p]) ==> ktr.contains(to[p]))
+}
+proof fn lemma_ktr_push(k0: Seq<KeyCode>, x: KeyCode, am: Seq<Mapping>, n: int, mo: Seq<KeyCode>, to: Seq<KeyCode>, n2: int, j: int)
+  requires ktr_sound(k0, am), ktr_complete(k0, am, n, mo), ktr_cur(k0, to, n2, mo), 0 <= j < am.len(), is_ram_src(am[j]), am[j].to@.contains(x)
+  ensures ktr_sound(k0.push(x), am), ktr_complete(k0.push(x), am, n, mo), ktr_cur(k0.push(x), to, n2, mo), k0.push(x).contains(x)
+{
+  lemma_push_contains(k0, x);
+  assert forall|y: KeyCode| #[trigger] k0.push(x).contains(y) implies ram_target(am, y) by { if y == x { assert(act_map(am[j]) && am[j].to@.contains(x)); } else { assert(k0.contains(y)); } }
+}
+proof fn lemma_ktr_next(ktr: Seq<KeyCode>, am: Seq<Mapping>, n: int, mo: Seq<KeyCode>, done: bool)
+  requires ktr_complete(ktr, am, n, mo), 0 <= n < am.len(), done ==> ktr_cur(ktr, am[n].to@, am[n].to@.len() as int, mo), !done ==> !is_ram_src(am[n])
+  ensures ktr_complete(ktr, am, n + 1, mo)
+{
+  assert forall|j: int, x: KeyCode| #![trigger am[j].to@.contains(x)] 0 <= j < n + 1 && j < am.len() && is_ram_src(am[j]) && am[j].to@.contains(x) && mo.contains(x) implies ktr.contains(x) by {
+    if j == n { let p = choose|p: int| 0 <= p < am[n].to@.len() && am[n].to@[p] == x; assert(mo.contains(am[n].to@[p])); }
+  }
+}
+#[verifier::opaque]
+spec fn ram_scope(o: State, st: State) -> bool { forall|x: KeyCode| #![trigger o.mapped_output_keys@.contains(x)] o.mapped_output_keys@.contains(x) && !st.mapped_output_keys@.contains(x) ==> ram_target(o.active_mappings@, x) }
+#[verifier::opaque]
+spec fn ram_done(st: State) -> bool { forall|x: KeyCode| #[trigger] st.mapped_output_keys@.contains(x) ==> !ram_target(st.active_mappings@, x) }
+
 //@ C01 C02 C05 C07 C09 C14 C19 | default: fn remove_mapping
 fn remove_mapping(state: &mut State, i: usize, removed_key: KeyCode) -> (res: Vec<Event>)
   requires
@@ -334,6 +369,8 @@ fn remove_mapping(state: &mut State, i: usize, removed_key: KeyCode) -> (res: Ve
     j6(*old(state)) ==> j6(*final(state)),
     //@  | frame / auxiliary
     forall|x: KeyCode| rel(res@, x) ==> old(state).mapped_output_keys@.contains(x) && !used_by_other(old(state).active_mappings@, i as int, x),
+    //@ C05 | removing a mapping never lifts a key that is passed through
+    sub(old(state).pass_through_keys@, final(state).pass_through_keys@),
   { //@ | body
   let mut res: Vec<Event> = Vec::new();
   
@@ -370,6 +407,8 @@ fn remove_mapping(state: &mut State, i: usize, removed_key: KeyCode) -> (res: Ve
       forall|x: KeyCode| #[trigger] pass_through_keys@.contains(x) ==> old(state).pass_through_keys@.contains(x) || !shadowed_by_other(active_mappings@, i as int, x),
       forall|x: KeyCode| #[trigger] pass_through_keys@.contains(x) ==> old(state).pass_through_keys@.contains(x) || !used_by_other(active_mappings@, i as int, x),
       forall|x: KeyCode| #[trigger] rel(res@, x) ==> old(state).mapped_output_keys@.contains(x) && !used_by_other(active_mappings@, i as int, x),
+      //@ C05 | removing a mapping never lifts a key that is passed through
+      sub(old(state).pass_through_keys@, pass_through_keys@),
     { //@ | body
     let ghost mo0 = state.mapped_output_keys@;
     let ghost pt0 = pass_through_keys@;
@@ -470,7 +509,12 @@ fn remove_mapping(state: &mut State, i: usize, removed_key: KeyCode) -> (res: Ve
   return res;
 }
 
-fn is_action_mapping(m: &Mapping) -> bool {
+//@ C04 C05 C14 | default: fn is_action_mapping
+fn is_action_mapping(m: &Mapping) -> (r: bool)
+  ensures
+    //@ C04 C05 | exact test: true iff the output ends in a non-modifier key
+    r == act_map(*m),
+  { //@ | body
   if m.to.len() == 0 {
     false
   }
@@ -501,7 +545,15 @@ fn has_action_key(keys: &Vec<KeyCode>) -> (r: bool)
   return false;
 }
 
-fn is_any_modifier(keys: &Vec<KeyCode>) -> bool {
+//@ C04 C05 C14 | default: fn is_any_modifier
+// ASSUMED contract (external_body): the body is the iterator adapter `.iter().any(closure)`, for which this Verus has no usable
+// specification; the contract is validated on every run by an exhaustive bounded comparison in the harness (extras: anymod_bounded).
+#[verifier::external_body]
+fn is_any_modifier(keys: &Vec<KeyCode>) -> (r: bool)
+  ensures
+    //@ C04 C05 | ASSUMED: true iff the list contains a modifier
+    r == has_mod(keys@),
+  { //@ | body
   keys.iter().any(|k| !is_action_key(k))
 }
 
@@ -527,8 +579,13 @@ fn release_action_mappings(state: &mut State) -> (events: Vec<Event>)
     sub(final(state).mapped_output_keys@, old(state).mapped_output_keys@),
     final(state).mapped_absorbed_keys@ == old(state).mapped_absorbed_keys@,
     final(state).absorbing_trigger == old(state).absorbing_trigger,
+    //@ C05 C04 | scope: the only keys lifted are output keys of key-producing mappings in effect that carry modifiers
+    ram_scope(*old(state), *final(state)),
+    //@ C04 | completeness: afterwards no output key of a key-producing mapping in effect that carries modifiers is still held for a mapping (no stale modifiers)
+    ram_done(*final(state)),
   { //@ | body
   let mut events = Vec::new();
+  let ghost am = old(state).active_mappings@; let ghost mo_seq = old(state).mapped_output_keys@;
   let ghost mo_old = old(state).mapped_output_keys@.to_set();
   let ghost pt_old = old(state).pass_through_keys@.to_set();
   
@@ -550,9 +607,18 @@ fn release_action_mappings(state: &mut State) -> (events: Vec<Event>)
       keys_to_release@.no_duplicates(),
       //@  | frame / auxiliary
       keys_to_release@.to_set().subset_of(mo_old),
+      //@ C05 C04 | the keys collected for lifting are exactly the held outputs of the key-producing mappings with modifiers scanned so far
+      am == old(state).active_mappings@, mo_seq == old(state).mapped_output_keys@,
+      it1.seq().len() == am.len(), forall|j: int| 0 <= j < am.len() ==> *it1.seq()[j] == am[j],
+      ktr_sound(keys_to_release@, am),
+      ktr_complete(keys_to_release@, am, it1.index@ as int, mo_seq),
     { //@ | body
+    let ghost n1 = it1.index@ as int;
+    proof { assert(*exsting_mapping == am[n1]); }
+    let ghost mut scanned = false;
     if is_action_mapping(exsting_mapping) {
       if exsting_mapping.to.len() > 1 && is_any_modifier(&exsting_mapping.to) {
+        proof { scanned = true; assert(is_ram_src(am[n1])); }
         for mod_key in it2: exsting_mapping.to.iter().rev()
           invariant
             //@  | frame / auxiliary
@@ -570,15 +636,29 @@ fn release_action_mappings(state: &mut State) -> (events: Vec<Event>)
             keys_to_release@.no_duplicates(),
             //@  | frame / auxiliary
             keys_to_release@.to_set().subset_of(mo_old),
+            //@ C05 C04 | the keys collected for lifting are exactly the held outputs of the key-producing mappings with modifiers scanned so far
+            am == old(state).active_mappings@, mo_seq == old(state).mapped_output_keys@, 0 <= n1 < am.len(), *exsting_mapping == am[n1], is_ram_src(am[n1]),
+            it2.seq().len() == am[n1].to@.len(), forall|j: int| 0 <= j < am[n1].to@.len() ==> *it2.seq()[j] == am[n1].to@[am[n1].to@.len() - 1 - j],
+            ktr_sound(keys_to_release@, am),
+            ktr_complete(keys_to_release@, am, n1, mo_seq),
+            ktr_cur(keys_to_release@, am[n1].to@, it2.index@ as int, mo_seq),
           { //@ | body
+          let ghost p2 = am[n1].to@.len() - 1 - it2.index@; let ghost kk0 = keys_to_release@;
+          proof { assert(*mod_key == am[n1].to@[p2]); assert(am[n1].to@.contains(*mod_key)); }
           if state.mapped_output_keys.contains(mod_key) && !keys_to_release.contains(mod_key) {
             let ghost k0 = keys_to_release@;
             keys_to_release.push(*mod_key);
-            proof { lemma_push_set(k0, *mod_key); lemma_push_nodup(k0, *mod_key); lemma_ts(old(state).mapped_output_keys@, *mod_key); assert(mo_old.contains(*mod_key)); }
+            proof { lemma_push_set(k0, *mod_key); lemma_push_nodup(k0, *mod_key); lemma_ts(old(state).mapped_output_keys@, *mod_key); assert(mo_old.contains(*mod_key));
+              lemma_ktr_push(k0, *mod_key, am, n1, mo_seq, am[n1].to@, it2.index@ as int, n1); }
           }
+          proof { assert(ktr_cur(keys_to_release@, am[n1].to@, it2.index@ as int + 1, mo_seq)) by {
+            assert forall|p: int| am[n1].to@.len() - (it2.index@ as int + 1) <= p < am[n1].to@.len() && 0 <= p implies (mo_seq.contains(#[trigger] am[n1].to@[p]) ==> keys_to_release@.contains(am[n1].to@[p])) by {
+              if p == p2 { } else { assert(mo_seq.contains(am[n1].to@[p]) ==> kk0.contains(am[n1].to@[p])); if kk0.contains(am[n1].to@[p]) && keys_to_release@ != kk0 { lemma_push_contains(kk0, *mod_key); } }
+            } } }
         }
       }
     }
+    proof { lemma_ktr_next(keys_to_release@, am, n1, mo_seq, scanned); }
   }
   
   for k in it3: &keys_to_release
@@ -669,6 +749,13 @@ fn release_action_mappings(state: &mut State) -> (events: Vec<Event>)
       let j = choose|j: int| 0 <= j < events@.len() && events@[j] == e;
       assert(events@[j] == Event::Released(keys_to_release@[j]));
     }
+    assert(ram_scope(*old(state), *state)) by { reveal(ram_scope);
+      assert forall|x: KeyCode| #![trigger old(state).mapped_output_keys@.contains(x)] old(state).mapped_output_keys@.contains(x) && !state.mapped_output_keys@.contains(x) implies ram_target(am, x) by {
+        lemma_ts(old(state).mapped_output_keys@, x); lemma_ts(state.mapped_output_keys@, x); assert(ktr.contains(x)); lemma_ts(keys_to_release@, x); } }
+    assert(ram_done(*state)) by { reveal(ram_done);
+      assert forall|x: KeyCode| #[trigger] state.mapped_output_keys@.contains(x) implies !ram_target(state.active_mappings@, x) by {
+        lemma_ts(old(state).mapped_output_keys@, x); lemma_ts(state.mapped_output_keys@, x); lemma_ts(keys_to_release@, x);
+        if ram_target(am, x) { let j = choose|j: int| 0 <= j < am.len() && act_map(#[trigger] am[j]) && am[j].to@.len() > 1 && has_mod(am[j].to@) && am[j].to@.contains(x); assert(is_ram_src(am[j])); assert(keys_to_release@.contains(x)); } } }
   }
   events
 }
@@ -742,6 +829,29 @@ spec fn rak_core(st: State, o: State, h0: Set<KeyCode>, evs: Seq<Event>, done: S
   &&& am_sub(st.active_mappings@, st.active_mappings@.len() as int, o.active_mappings@)
 }
 
+/// C05: lifting the absorbed keys leaves every other passed-through key down
+spec fn rak_pt(st: State, o: State, done: Seq<KeyCode>) -> bool { forall|x: KeyCode| #![trigger o.pass_through_keys@.contains(x)] o.pass_through_keys@.contains(x) && !done.contains(x) ==> st.pass_through_keys@.contains(x) }
+/// with nothing absorbed the call does nothing
+spec fn rak_idle(st: State, o: State, evs: Seq<Event>) -> bool {
+  evs.len() == 0 && st.pass_through_keys@ == o.pass_through_keys@ && st.mapped_output_keys@ == o.mapped_output_keys@ && st.active_mappings@ == o.active_mappings@ && st.input_pressed_keys@ == o.input_pressed_keys@
+}
+proof fn lemma_rak_pt_weaken(st: State, o: State, d0: Seq<KeyCode>, k: KeyCode)
+  requires rak_pt(st, o, d0)
+  ensures rak_pt(st, o, d0.push(k))
+{ assert forall|x: KeyCode| #![trigger o.pass_through_keys@.contains(x)] o.pass_through_keys@.contains(x) && !d0.push(k).contains(x) implies st.pass_through_keys@.contains(x) by { lemma_push_contains(d0, k); if d0.contains(x) { } } }
+proof fn lemma_rak_pt_sub(st0: State, st: State, o: State, done: Seq<KeyCode>)
+  requires rak_pt(st0, o, done), sub(st0.pass_through_keys@, st.pass_through_keys@)
+  ensures rak_pt(st, o, done)
+{ }
+proof fn lemma_rak_pt_remove(st0: State, st: State, o: State, done: Seq<KeyCode>, i: int)
+  requires rak_pt(st0, o, done), 0 <= i < st0.pass_through_keys@.len(), st.pass_through_keys@ == st0.pass_through_keys@.remove(i), done.contains(st0.pass_through_keys@[i])
+  ensures rak_pt(st, o, done)
+{
+  assert forall|x: KeyCode| #![trigger o.pass_through_keys@.contains(x)] o.pass_through_keys@.contains(x) && !done.contains(x) implies st.pass_through_keys@.contains(x) by {
+    let pt0 = st0.pass_through_keys@; assert(pt0.contains(x)); let j = choose|j: int| 0 <= j < pt0.len() && pt0[j] == x; assert(j != i); let j2 = if j < i { j } else { j - 1 }; assert(pt0.remove(i)[j2] == x);
+  }
+}
+
 //@ C01 C02 C05 C07 C09 C14 C19 | default: fn release_absorbed_keys
 fn release_absorbed_keys(state: &mut State) -> (events: Vec<Event>)
   requires
@@ -774,6 +884,9 @@ fn release_absorbed_keys(state: &mut State) -> (events: Vec<Event>)
     am_sub(final(state).active_mappings@, final(state).active_mappings@.len() as int, old(state).active_mappings@),
     //@ C08 C05 | every key that was absorbed is neither considered pressed nor passed through afterwards
     forall|d: KeyCode| #[trigger] old(state).mapped_absorbed_keys@.contains(d) ==> !final(state).input_pressed_keys@.contains(d) && !final(state).pass_through_keys@.contains(d),
+    //@ C05 | every other passed-through key stays down; with nothing absorbed the call does nothing
+    rak_pt(*final(state), *old(state), old(state).mapped_absorbed_keys@),
+    old(state).mapped_absorbed_keys@.len() == 0 ==> rak_idle(*final(state), *old(state), events@),
   { //@ | body
   let mut events: Vec<Event> = Vec::new();
   let ghost h0 = held(*old(state));
@@ -789,6 +902,9 @@ fn release_absorbed_keys(state: &mut State) -> (events: Vec<Event>)
     invariant
       //@  | frame / auxiliary
       it0.seq() == tr,
+      //@ C05 | every other passed-through key stays down; with nothing absorbed the call does nothing
+      rak_pt(*state, *old(state), tr.take(it0.index@ as int)),
+      tr.len() == 0 ==> rak_idle(*state, *old(state), events@),
       //@ C01 C02 | inclusion invariant J (every held output key is justified by what is pressed)
       rak_inv(*state, *old(state), h0, events@, tr.take(it0.index@ as int)),
       j2(*old(state)) ==> j2(*state),
@@ -808,6 +924,8 @@ fn release_absorbed_keys(state: &mut State) -> (events: Vec<Event>)
         invariant
           //@  | frame / auxiliary
           -1 <= i < state.active_mappings@.len(),
+          //@ C05 | every other passed-through key stays down
+          rak_pt(*state, *old(state), done0),
           //@ C01 C02 | inclusion invariant J (every held output key is justified by what is pressed)
           rak_inv(*state, *old(state), h0, events@, done0),
           j2(*old(state)) ==> j2(*state),
@@ -830,8 +948,9 @@ fn release_absorbed_keys(state: &mut State) -> (events: Vec<Event>)
       {
         if fails_when_released(&state.active_mappings[i as usize].from, &k) {
           let ghost e0 = events@; let ghost hm0 = held(*state);
-          let ghost am0 = state.active_mappings@;
+          let ghost am0 = state.active_mappings@; let ghost st_rm = *state;
           events.append(&mut remove_mapping(state, i as usize, k));
+          proof { lemma_rak_pt_sub(st_rm, *state, *old(state), done0); }
           proof { let chunk = choose|c: Seq<Event>| events@ == e0 + c && apply(hm0, c) == Some(held(*state)) && all_released(c);
             lemma_apply_append(h0, e0, chunk); lemma_append_contains(e0, chunk); lemma_am_sub_remove(am0, i as int); lemma_am_sub_trans(state.active_mappings@, am0, old(state).active_mappings@);
             assert forall|j: int| i <= j < state.active_mappings@.len() implies !(#[trigger] state.active_mappings@[j].from@).contains(k) by { assert(state.active_mappings@[j] == am0[j + 1]); }
@@ -841,6 +960,7 @@ fn release_absorbed_keys(state: &mut State) -> (events: Vec<Event>)
       }
     }
     
+    proof { lemma_rak_pt_weaken(*state, *old(state), done0, k); }
     for i in it2: (0 .. state.pass_through_keys.len()).rev()
       invariant_except_break
         //@  | frame / auxiliary
@@ -848,6 +968,8 @@ fn release_absorbed_keys(state: &mut State) -> (events: Vec<Event>)
         forall|j: int| 0 <= j < it2.seq().len() ==> it2.seq()[j] == it2.seq().len() - 1 - j,
         forall|j: int| state.pass_through_keys@.len() - it2.index@ <= j < state.pass_through_keys@.len() ==> #[trigger] state.pass_through_keys@[j] != k,
       invariant
+        //@ C05 | every other passed-through key stays down
+        rak_pt(*state, *old(state), done1), done1.contains(k),
         //@ C01 C02 | inclusion invariant J (every held output key is justified by what is pressed)
         rak_inv(*state, *old(state), h0, events@, done0),
         j2(*old(state)) ==> j2(*state),
@@ -868,9 +990,10 @@ fn release_absorbed_keys(state: &mut State) -> (events: Vec<Event>)
       { //@ | body
       if state.pass_through_keys[i] == k {
         let ghost e0 = events@;
-        let ghost pt0 = state.pass_through_keys@;
+        let ghost pt0 = state.pass_through_keys@; let ghost st_pt = *state;
         events.push(Released(k));
         state.pass_through_keys.remove(i);
+        proof { lemma_rak_pt_remove(st_pt, *state, *old(state), done1, i as int); }
         proof {
           lemma_push_contains(e0, Released(k));
           assert(events@.drop_last() =~= e0);
@@ -889,6 +1012,8 @@ fn release_absorbed_keys(state: &mut State) -> (events: Vec<Event>)
         invariant
           //@ C01 C02 C09 | effect of the call on the list of keys considered pressed
           __i <= state.input_pressed_keys@.len(),
+          //@ C05 | every other passed-through key stays down
+          rak_pt(*state, *old(state), done1),
           //@ C01 C02 | inclusion invariant J (every held output key is justified by what is pressed)
           rak_core(*state, *old(state), h0, events@, done1), rak_gone(*state, done0), done1 =~= done0.push(k),
           //@  | frame / auxiliary
@@ -1204,6 +1329,80 @@ proof fn lemma_only_presses_ext(e0: Seq<Event>, e1: Seq<Event>, to: Seq<KeyCode>
   }
 }
 
+// ---- which keys the firing of a mapping may lift (C05, C04) ----
+/// x may be lifted when mapping m fires in state o: (a) an output key of a key-producing mapping in effect that carries modifiers, when m is key-producing;
+/// (b) while keys are absorbed: an output key held for a mapping, an absorbed key, or a trigger key of m; (c) a passed-through trigger key of m that m does not output;
+/// (d) a non-modifier output key of m (lifted and pressed again); (e) any non-modifier key when m does not have Normal repeat
+spec fn anm_scope(o: State, m: Mapping, x: KeyCode) -> bool {
+     (act_map(m) && o.mapped_output_keys@.contains(x) && ram_target(o.active_mappings@, x))
+  || (o.mapped_absorbed_keys@.len() > 0 && (o.mapped_output_keys@.contains(x) || o.mapped_absorbed_keys@.contains(x) || (m.from@.contains(x) && !m.to@.contains(x))))
+  || (o.pass_through_keys@.contains(x) && m.from@.contains(x) && !m.to@.contains(x))
+  || (m.to@.contains(x) && !is_mod(x))
+  || (!is_mod(x) && !(m.repeat is Normal))
+}
+#[verifier::opaque]
+spec fn anm_rel(o: State, m: Mapping, evs: Seq<Event>) -> bool { forall|x: KeyCode| #[trigger] rel(evs, x) ==> anm_scope(o, m, x) }
+// a key released by a batch of releases was down before the batch and is up after it
+proof fn lemma_released_gone(h: Set<KeyCode>, evs: Seq<Event>, x: KeyCode)
+  requires all_released(evs), apply(h, evs) is Some, rel(evs, x)
+  ensures h.contains(x), !apply(h, evs).unwrap().contains(x)
+  decreases evs.len()
+{
+  let j = choose|j: int| 0 <= j < evs.len() && evs[j] == Event::Released(x);
+  let init = evs.drop_last();
+  assert(all_released(init)) by { assert forall|e: Event| init.contains(e) implies e is Released by { let q = choose|q: int| 0 <= q < init.len() && init[q] == e; assert(evs[q] == e); assert(evs.contains(e)); } }
+  let h1 = apply(h, init).unwrap();
+  lemma_apply_only_releases(h, init);
+  assert(evs.contains(evs.last())) by { assert(evs[evs.len() - 1] == evs.last()); }
+  if j == evs.len() - 1 { assert(evs.last() == Event::Released(x)); }
+  else { assert(init[j] == Event::Released(x)); assert(rel(init, x)); lemma_released_gone(h, init, x); }
+}
+proof fn lemma_anm_rel_empty(o: State, m: Mapping, evs: Seq<Event>) requires evs.len() == 0 ensures anm_rel(o, m, evs) { reveal(anm_rel); }
+proof fn lemma_anm_rel_ram(o: State, st: State, m: Mapping, c: Seq<Event>)
+  requires all_released(c), apply(held(o), c) == Some(held(st)), st.pass_through_keys@ == o.pass_through_keys@, ram_scope(o, st), act_map(m)
+  ensures anm_rel(o, m, c)
+{
+  reveal(anm_rel); reveal(ram_scope);
+  assert forall|x: KeyCode| #[trigger] rel(c, x) implies anm_scope(o, m, x) by {
+    lemma_released_gone(held(o), c, x); lemma_ts(o.pass_through_keys@, x); lemma_ts(o.mapped_output_keys@, x); lemma_ts(st.mapped_output_keys@, x);
+    assert(o.mapped_output_keys@.contains(x)); assert(!st.mapped_output_keys@.contains(x));
+  }
+}
+proof fn lemma_anm_rel_rak(o: State, sp: State, st: State, m: Mapping, e1: Seq<Event>, c: Seq<Event>)
+  requires anm_rel(o, m, e1), all_released(c), apply(held(sp), c) == Some(held(st)), sp.pass_through_keys@ == o.pass_through_keys@, sub(sp.mapped_output_keys@, o.mapped_output_keys@),
+    sp.mapped_absorbed_keys@ == o.mapped_absorbed_keys@, rak_pt(st, sp, sp.mapped_absorbed_keys@), sp.mapped_absorbed_keys@.len() == 0 ==> rak_idle(st, sp, c)
+  ensures anm_rel(o, m, e1 + c)
+{
+  reveal(anm_rel); lemma_append_contains(e1, c);
+  assert forall|x: KeyCode| #[trigger] rel(e1 + c, x) implies anm_scope(o, m, x) by {
+    if rel(e1, x) { } else {
+      assert(rel(c, x));
+      lemma_released_gone(held(sp), c, x); lemma_ts(sp.pass_through_keys@, x); lemma_ts(sp.mapped_output_keys@, x); lemma_ts(st.pass_through_keys@, x);
+      assert(o.mapped_absorbed_keys@.len() > 0);
+      if sp.mapped_output_keys@.contains(x) { assert(o.mapped_output_keys@.contains(x)); } else { assert(o.pass_through_keys@.contains(x)); assert(!st.pass_through_keys@.contains(x)); assert(o.mapped_absorbed_keys@.contains(x)); }
+    }
+  }
+}
+proof fn lemma_anm_rel_push(o: State, m: Mapping, e0: Seq<Event>, e: Event)
+  requires anm_rel(o, m, e0), match e { Event::Released(x) => anm_scope(o, m, x), _ => true }
+  ensures anm_rel(o, m, e0.push(e))
+{
+  reveal(anm_rel);
+  assert forall|x: KeyCode| #[trigger] rel(e0.push(e), x) implies anm_scope(o, m, x) by {
+    let j = choose|j: int| 0 <= j < e0.push(e).len() && e0.push(e)[j] == Event::Released(x);
+    if j < e0.len() { assert(e0[j] == Event::Released(x)); assert(rel(e0, x)); }
+  }
+}
+proof fn lemma_anm_rel_raak(o: State, m: Mapping, e0: Seq<Event>, c: Seq<Event>, hm0: Set<KeyCode>, h1: Set<KeyCode>)
+  requires anm_rel(o, m, e0), all_released(c), apply(hm0, c) == Some(h1), forall|k: KeyCode| hm0.contains(k) && is_mod(k) ==> h1.contains(k), !(m.repeat is Normal)
+  ensures anm_rel(o, m, e0 + c)
+{
+  reveal(anm_rel); lemma_append_contains(e0, c);
+  assert forall|x: KeyCode| #[trigger] rel(e0 + c, x) implies anm_scope(o, m, x) by {
+    if rel(e0, x) { } else { assert(rel(c, x)); lemma_released_gone(hm0, c, x); }
+  }
+}
+
 //@ C01 C02 C03 C05 C07 C08 C09 C14 C19 | default: fn add_new_mapping
 fn add_new_mapping(state: &mut State, new_key: &KeyCode, m: &Mapping) -> (res: StepResult)
   requires
@@ -1243,6 +1442,8 @@ fn add_new_mapping(state: &mut State, new_key: &KeyCode, m: &Mapping) -> (res: S
     c07_fire(*m, held(*final(state))),
     //@ C08 C04 C05 | the only keys this step presses are output keys of the fired mapping
     only_presses(res.events@, m.to@),
+    //@ C05 C04 | the only keys this step lifts: outputs of key-producing mappings in effect that carry modifiers (when the fired mapping is key-producing), passed-through trigger keys the mapping does not output, its own non-modifier outputs (lifted and pressed again), any non-modifier key when its repeat is not Normal; and, only while keys are absorbed, held mapping outputs, absorbed keys and trigger keys
+    anm_rel(*old(state), *m, res.events@),
     //@ C08 | absorbed keys: every key of the fired mapping's absorbing list is absorbed afterwards with the pressed key as trigger; if the output contains a non-modifier key and the pressed key is not the current absorbing trigger, the keys absorbed before are lifted (no longer considered pressed, not passed through) and forgotten, otherwise they stay absorbed
     c08_anm(*old(state), *final(state), *new_key, *m),
     //@ C09 | repeat request
@@ -1263,12 +1464,14 @@ fn add_new_mapping(state: &mut State, new_key: &KeyCode, m: &Mapping) -> (res: S
   let ghost nk0 = *new_key;
   proof { assert(all_released(events@)); }
   let ghost h0 = held(*old(state));
+  proof { lemma_anm_rel_empty(*old(state), *m, events@); }
   
   proof { assert(jx(*state, m.to@)); assert(nonempty_from(state.active_mappings@)); lemma_am_sub_refl(state.active_mappings@); assert(anm_extra(*old(state), *state, m.absorbing@)); }
   if is_action_mapping(m) {
     let ghost e0 = events@; let ghost hm0 = held(*state);
     events.append(&mut release_action_mappings(state));
-    proof { let c1 = choose|c: Seq<Event>| events@ == e0 + c && apply(hm0, c) == Some(held(*state)) && all_released(c); lemma_apply_append(h0, e0, c1); assert(e0 =~= Seq::<Event>::empty()); assert(e0 + c1 =~= c1); assert(jx(*state, m.to@)); assert(nonempty_from(state.active_mappings@)); assert((j2(*old(state)) ==> j2(*state)) && (j3(*old(state)) ==> j3(*state)) && (j4(*old(state)) ==> j4(*state)) && (j6(*old(state)) ==> j6(*state)) && sub(state.input_pressed_keys@, old(state).input_pressed_keys@) && (forall|x: KeyCode| #[trigger] old(state).input_pressed_keys@.contains(x) && (!old(state).mapped_absorbed_keys@.contains(x) || old(state).absorbing_trigger == Some(nk0)) ==> state.input_pressed_keys@.contains(x)) && anm_extra(*old(state), *state, m.absorbing@)); }
+    proof { let c1 = choose|c: Seq<Event>| events@ == e0 + c && apply(hm0, c) == Some(held(*state)) && all_released(c); lemma_apply_append(h0, e0, c1); assert(e0 =~= Seq::<Event>::empty()); assert(e0 + c1 =~= c1);
+      lemma_anm_rel_ram(*old(state), *state, *m, c1); assert(jx(*state, m.to@)); assert(nonempty_from(state.active_mappings@)); assert((j2(*old(state)) ==> j2(*state)) && (j3(*old(state)) ==> j3(*state)) && (j4(*old(state)) ==> j4(*state)) && (j6(*old(state)) ==> j6(*state)) && sub(state.input_pressed_keys@, old(state).input_pressed_keys@) && (forall|x: KeyCode| #[trigger] old(state).input_pressed_keys@.contains(x) && (!old(state).mapped_absorbed_keys@.contains(x) || old(state).absorbing_trigger == Some(nk0)) ==> state.input_pressed_keys@.contains(x)) && anm_extra(*old(state), *state, m.absorbing@)); }
   }
   if has_action_key(&m.to) {
     let should_absorb = {
@@ -1278,8 +1481,9 @@ fn add_new_mapping(state: &mut State, new_key: &KeyCode, m: &Mapping) -> (res: S
       }
     };
     if should_absorb {
-      let ghost e1 = events@; let ghost hm1 = held(*state); let ghost am_pre = state.active_mappings@;
+      let ghost e1 = events@; let ghost hm1 = held(*state); let ghost am_pre = state.active_mappings@; let ghost s_pre = *state;
       events.append(&mut release_absorbed_keys(state));
+      proof { let c2r = choose|c: Seq<Event>| events@ == e1 + c && apply(hm1, c) == Some(held(*state)) && all_released(c); lemma_anm_rel_rak(*old(state), s_pre, *state, *m, e1, c2r); }
       proof { lemma_nonempty_sub(state.active_mappings@, am_pre); lemma_am_sub_trans(state.active_mappings@, am_pre, old(state).active_mappings@); let c2 = choose|c: Seq<Event>| events@ == e1 + c && apply(hm1, c) == Some(held(*state)) && all_released(c); lemma_apply_append(h0, e1, c2); lemma_append_contains(e1, c2); assert(jx(*state, m.to@)); assert((j2(*old(state)) ==> j2(*state)) && (j3(*old(state)) ==> j3(*state)) && (j4(*old(state)) ==> j4(*state)) && (j6(*old(state)) ==> j6(*state)) && sub(state.input_pressed_keys@, old(state).input_pressed_keys@) && (forall|x: KeyCode| #[trigger] old(state).input_pressed_keys@.contains(x) && (!old(state).mapped_absorbed_keys@.contains(x) || old(state).absorbing_trigger == Some(nk0)) ==> state.input_pressed_keys@.contains(x)) && anm_extra(*old(state), *state, m.absorbing@)); }
     }
   }
@@ -1288,6 +1492,7 @@ fn add_new_mapping(state: &mut State, new_key: &KeyCode, m: &Mapping) -> (res: S
   let ghost cleared = has_action(m.to@) && old(state).absorbing_trigger != Some(nk0);
   let ghost gone: Seq<KeyCode> = if cleared { old(state).mapped_absorbed_keys@ } else { Seq::empty() };
   proof { assert(abs_phase(*old(state), *state, nk0, m.to@)); assert(gone_keep(*state, gone)); assert(all_released(events@)); }
+  proof { assert(old(state).mapped_absorbed_keys@.len() == 0 ==> pt_s1 == old(state).pass_through_keys@); }
   proof { assert(held(*state) =~= state.pass_through_keys@.to_set().union(state.mapped_output_keys@.to_set())); }
   let pass_through_keys = &mut state.pass_through_keys;
   let mapped_output_keys = &mut state.mapped_output_keys;
@@ -1305,6 +1510,8 @@ fn add_new_mapping(state: &mut State, new_key: &KeyCode, m: &Mapping) -> (res: S
       forall|x: KeyCode| #[trigger] mapped_output_keys@.contains(x) ==> mo_s1.contains(x) || m.to@.contains(x),
       sub(pass_through_keys@, pt_s1), all_released(events@),
       forall|j: int| 0 <= j < __i ==> !m.from@.contains(#[trigger] pass_through_keys@[j]) && !m.to@.contains(pass_through_keys@[j]),
+      //@ C05 C04 | scope of the keys lifted so far
+      anm_rel(*old(state), *m, events@), old(state).mapped_absorbed_keys@.len() == 0 ==> pt_s1 == old(state).pass_through_keys@,
     decreases pass_through_keys@.len() - __i
   { let ghost pt0 = pass_through_keys@; let ghost mo0 = mapped_output_keys@; let ghost e0 = events@;
     let __keep = { let old_key = pass_through_keys[__i];
@@ -1313,7 +1520,7 @@ fn add_new_mapping(state: &mut State, new_key: &KeyCode, m: &Mapping) -> (res: S
     if m.from.contains(&old_key) || m.to.contains(&old_key) {
       if !m.to.contains(&old_key) {
         events.push(Released(old_key));
-        proof { assert(events@.drop_last() =~= e0); lemma_push_contains(e0, Event::Released(old_key)); }
+        proof { assert(events@.drop_last() =~= e0); lemma_push_contains(e0, Event::Released(old_key)); assert(pt_s1.contains(old_key)); lemma_anm_rel_push(*old(state), *m, e0, Event::Released(old_key)); }
         false
       }
       else {
@@ -1354,6 +1561,8 @@ fn add_new_mapping(state: &mut State, new_key: &KeyCode, m: &Mapping) -> (res: S
       out_done(m.to@, it.index@ as int, events@, held(*state)),
       //@ C08 C04 C05 | so far only output keys of the mapping have been pressed
       only_presses(events@, m.to@),
+      //@ C05 C04 | scope of the keys lifted so far
+      anm_rel(*old(state), *m, events@),
       //@ C08 | the absorbed list and its trigger are untouched while the outputs are pressed; lifted keys stay lifted
       state.mapped_absorbed_keys@ == ab_s1, state.absorbing_trigger == at_s1, state.input_pressed_keys@ == ip_s1, gone_keep(*state, gone),
       //@  | frame / auxiliary
@@ -1370,6 +1579,7 @@ fn add_new_mapping(state: &mut State, new_key: &KeyCode, m: &Mapping) -> (res: S
         events.push(Released(*new_key));
         let ghost e1 = events@;
         events.push(Pressed(*new_key));
+        proof { lemma_anm_rel_push(*old(state), *m, e0, Event::Released(*new_key)); lemma_anm_rel_push(*old(state), *m, e1, Event::Pressed(*new_key)); }
         proof { assert(e1.drop_last() =~= e0); assert(events@.drop_last() =~= e1); assert(held(*state).remove(*new_key).insert(*new_key) =~= held(*state)); assert(apply(h0, events@) == Some(held(*state))); }
       }
       else {
@@ -1377,6 +1587,7 @@ fn add_new_mapping(state: &mut State, new_key: &KeyCode, m: &Mapping) -> (res: S
           events.push(Released(*new_key));
           let ghost e1 = events@;
           events.push(Pressed(*new_key));
+          proof { lemma_anm_rel_push(*old(state), *m, e0, Event::Released(*new_key)); lemma_anm_rel_push(*old(state), *m, e1, Event::Pressed(*new_key)); }
           proof { assert(e1.drop_last() =~= e0); assert(events@.drop_last() =~= e1); }
           let mut __i: usize = 0; while __i < state.pass_through_keys.len()
             invariant
@@ -1411,6 +1622,7 @@ fn add_new_mapping(state: &mut State, new_key: &KeyCode, m: &Mapping) -> (res: S
         else {
           events.push(Pressed(*new_key));
           state.mapped_output_keys.push(*new_key);
+          proof { lemma_anm_rel_push(*old(state), *m, e0, Event::Pressed(*new_key)); }
           proof { assert(events@.drop_last() =~= e0); lemma_push_set(mo0, *new_key); lemma_push_nodup(mo0, *new_key); lemma_push_contains(mo0, *new_key);
             assert(held(*state) =~= (pt0.to_set().union(mo0.to_set())).insert(*new_key)); assert(apply(h0, events@) == Some(held(*state))); }
         }
@@ -1420,6 +1632,7 @@ fn add_new_mapping(state: &mut State, new_key: &KeyCode, m: &Mapping) -> (res: S
       if !state.mapped_output_keys.contains(new_key) && !state.pass_through_keys.contains(new_key) {
         events.push(Pressed(*new_key));
         state.mapped_output_keys.push(*new_key);
+        proof { lemma_anm_rel_push(*old(state), *m, e0, Event::Pressed(*new_key)); }
         proof { assert(events@.drop_last() =~= e0); lemma_push_set(mo0, *new_key); lemma_push_nodup(mo0, *new_key); lemma_push_contains(mo0, *new_key);
           assert(held(*state) =~= (pt0.to_set().union(mo0.to_set())).insert(*new_key)); assert(apply(h0, events@) == Some(held(*state))); }
       }
@@ -1450,6 +1663,8 @@ fn add_new_mapping(state: &mut State, new_key: &KeyCode, m: &Mapping) -> (res: S
       it.seq().len() == m.absorbing@.len(), forall|j: int| 0 <= j < m.absorbing@.len() ==> *it.seq()[j] == m.absorbing@[j],
       //@ C03 C07 | all output keys are held, the non-modifier ones were pressed by an event of this step
       out_done(m.to@, m.to@.len() as int, events@, held(*state)), only_presses(events@, m.to@),
+      //@ C05 C04 | scope of the keys lifted so far
+      anm_rel(*old(state), *m, events@),
       //@ C08 | the keys of the absorbing list handled so far are absorbed; nothing else is added; the trigger is untouched so far
       state.absorbing_trigger == at_s1, gone_keep(*state, gone), sub(ab_s1, state.mapped_absorbed_keys@),
       forall|j: int| 0 <= j < it.index@ ==> state.mapped_absorbed_keys@.contains(#[trigger] m.absorbing@[j]),
@@ -1495,14 +1710,14 @@ fn add_new_mapping(state: &mut State, new_key: &KeyCode, m: &Mapping) -> (res: S
       let ghost e0 = res.events@; let ghost hm0 = held(*state);
       res.events.append(&mut release_all_action_keys(state));
       proof { let c = choose|c: Seq<Event>| res.events@ == e0 + c && apply(hm0, c) == Some(held(*state)) && all_released(c); lemma_apply_append(h0, e0, c);
-        lemma_c03_fire_norepeat(*m, e0, c, hm0, held(*state)); lemma_only_presses_append(e0, c, m.to@); }
+        lemma_c03_fire_norepeat(*m, e0, c, hm0, held(*state)); lemma_only_presses_append(e0, c, m.to@); lemma_anm_rel_raak(*old(state), *m, e0, c, hm0, held(*state)); }
     },
     Repeat::Special { keys, delay_ms, interval_ms } => {
       // First release action keys
       let ghost e0 = res.events@; let ghost hm0 = held(*state);
       res.events.append(&mut release_all_action_keys(state));
       proof { let c = choose|c: Seq<Event>| res.events@ == e0 + c && apply(hm0, c) == Some(held(*state)) && all_released(c); lemma_apply_append(h0, e0, c);
-        lemma_c03_fire_norepeat(*m, e0, c, hm0, held(*state)); lemma_only_presses_append(e0, c, m.to@); }
+        lemma_c03_fire_norepeat(*m, e0, c, hm0, held(*state)); lemma_only_presses_append(e0, c, m.to@); lemma_anm_rel_raak(*old(state), *m, e0, c, hm0, held(*state)); }
 
       // Now tell it what key to repeat
       res.repeat = ResultingRepeat::Repeating {
